@@ -75,11 +75,20 @@ var wellFormed = ev.Register(&ev.P[yearCase]{
 				return fmt.Errorf("year %d: month number %d", y, m.M)
 			}
 		}
-		if y > 1 && y < 9998 {
-			for _, n := range []int{1, -1} {
-				if nx := ly.Next(n); nx.GetYear() != y+n || fmt.Sprint(tableOfYear(nx)) != fmt.Sprint(tableOf(y+n)) {
-					return fmt.Errorf("year %d: LunarYear.Next(%d) is not the table of year %d", y, n, y+n)
-				}
+		// a year object reached by stepping is the year object of that year: table, pillar, and every other accessor
+		for _, n := range []int{1, -1, 0, 10, -12, 25, 60, 61, -7 - y%5} {
+			if y+n < 1 || y+n > 9998 {
+				continue
+			}
+			nx := ly.Next(n)
+			if nx.GetYear() != y+n || fmt.Sprint(tableOfYear(nx)) != fmt.Sprint(tableOf(y+n)) {
+				return fmt.Errorf("year %d: LunarYear.Next(%d) is not the table of year %d", y, n, y+n)
+			}
+			direct := calendar.NewLunarYear(y + n)
+			if nx.GetGanZhi() != direct.GetGanZhi() || nx.GetGanZhi() != ref.Pair(ref.YearPillar(y+n)) || nx.GetGanIndex() != direct.GetGanIndex() || nx.GetZhiIndex() != direct.GetZhiIndex() ||
+				nx.GetNineStar().GetIndex() != direct.GetNineStar().GetIndex() || nx.GetPositionTaiSui() != direct.GetPositionTaiSui() || nx.GetZhiShui() != direct.GetZhiShui() || nx.GetLeapMonth() != direct.GetLeapMonth() || nx.GetDayCount() != direct.GetDayCount() {
+				return fmt.Errorf("year %d: LunarYear.Next(%d) reports pillar %s star %d Tai Sui %s, the year object of %d reports %s / %d / %s (sexagenary count: %s)", y, n, nx.GetGanZhi(), nx.GetNineStar().GetIndex(), nx.GetPositionTaiSui(),
+					y+n, direct.GetGanZhi(), direct.GetNineStar().GetIndex(), direct.GetPositionTaiSui(), ref.Pair(ref.YearPillar(y+n)))
 			}
 		}
 		in := inYear(y)
